@@ -882,7 +882,8 @@ class dictable(Dict):
         >>> assert rs & ['c', 'd'] == rs[['c']]
 
         """
-        return self[self.columns & other]
+        columns = self.columns & other
+        return self[columns] if len(columns) else type(self)() # self[[]] is read as 'no rows' and keeps all columns
             
     __radd__ = __add__
     
